@@ -512,3 +512,273 @@ Proof.
      |intros n; reflexivity
      |intros n; rewrite (key_of_kind_bi w p c K); reflexivity]).
 Qed.
+
+(* the "leave the old owner first" prefix shared by all adders *)
+Definition detach (w : world) (c : id) : world * bool :=
+  match par w c with Some old => set_discard w old c | None => (w, true) end.
+
+Lemma detach_attr : forall w c n, attr (fst (detach w c)) n = attr w n.
+Proof. intros. unfold detach. destruct (par w c); [apply set_discard_attr|reflexivity]. Qed.
+
+Lemma detach_sync : forall w c, SyncAll w -> SyncAll (fst (detach w c)).
+Proof. intros w c H. unfold detach. destruct (par w c); [apply set_discard_sync|]; exact H. Qed.
+
+Lemma key_of_kind_other : forall w p c, kindof w p <> KBI -> kindof w p <> KSec -> key_of w p c = None.
+Proof. intros w p c K1 K2. unfold key_of. destruct (kindof w p); try reflexivity; congruence. Qed.
+
+Lemma set_add1_attr : forall w p c n, attr (fst (set_add1 w p c)) n = attr w n.
+Proof.
+  intros w p c n. unfold set_add1.
+  destruct (kindof w p); try reflexivity.
+  - fold (detach w c). destruct (detach w c) as [w0' ok0] eqn:D. cbn [fst].
+    destruct (ir_of _ p) as [ir|]; autorewrite with wf;
+    (replace w0' with (fst (detach w c)) by (rewrite D; reflexivity)); apply detach_attr.
+  - fold (detach w c). destruct (detach w c) as [w0' ok0] eqn:D. cbn [fst].
+    destruct (ir_of _ p) as [ir|]; autorewrite with wf;
+    (replace w0' with (fst (detach w c)) by (rewrite D; reflexivity)); apply detach_attr.
+Qed.
+
+Lemma set_add1_sync : forall w p c, SyncAll w -> SyncAll (fst (set_add1 w p c)).
+Proof.
+  intros w p c H. unfold set_add1.
+  destruct (kindof w p) eqn:K; try exact H.
+  - fold (detach w c). pose proof (detach_sync w c H) as S0. pose proof (detach_attr w c p) as A0.
+    apply attr_kindof in A0. rewrite K in A0.
+    destruct (detach w c) as [w0' ok0]. cbn [fst] in *.
+    apply sync_add_at with (w := w0') (p := p) (c := c).
+    + exact S0.
+    + intros n. destruct (ir_of _ p) as [ir|]; autorewrite with wf; reflexivity.
+    + intros n. destruct (ir_of _ p) as [ir|]; wproj; rewrite kids_mod_index_add; reflexivity.
+    + intros n. rewrite (key_of_kind_mod w0' p c A0). cbn [lt_add].
+      destruct (ir_of _ p) as [ir|]; wproj; rewrite tree_mod_index_add; wproj;
+      destruct (Z.eqb_spec n p) as [E|E]; [subst n| |subst n|]; reflexivity.
+  - fold (detach w c). pose proof (detach_sync w c H) as S0. pose proof (detach_attr w c p) as A0.
+    apply attr_kindof in A0. rewrite K in A0.
+    destruct (detach w c) as [w0' ok0]. cbn [fst] in *.
+    apply sync_add_at with (w := w0') (p := p) (c := c).
+    + exact S0.
+    + intros n. destruct (ir_of _ p) as [ir|]; autorewrite with wf; reflexivity.
+    + intros n. destruct (ir_of _ p) as [ir|]; reflexivity.
+    + intros n. rewrite (key_of_kind_sec w0' p c A0).
+      destruct (ir_of _ p) as [ir|]; reflexivity.
+Qed.
+
+(* ================================================================== *)
+(** * blocks_update *)
+
+Lemma sync_quiet0 : forall w w', SyncAll w ->
+  (forall n, attr w' n = attr w n) -> (forall n, kids w' n = kids w n) -> (forall n, tree w' n = tree w n) ->
+  SyncAll w'.
+Proof.
+  intros w w' H Ha Hk Ht. apply sync_same with (w := w); [exact H|exact Ht|].
+  intros n. apply cur_ivs_ext; [apply Ha|apply Hk|intros; apply Ha].
+Qed.
+
+Lemma fold_pair_fst : forall (X B : Type) (F : world * B -> X -> world * B) (G : world -> X -> world),
+  (forall w b x, fst (F (w, b) x) = G w x) ->
+  forall l w b, fst (fold_left F l (w, b)) = fold_left G l w.
+Proof.
+  intros X B F G H l. induction l as [|a l IH]; intros w b; [reflexivity|].
+  cbn [fold_left]. destruct (F (w, b) a) as [w' b'] eqn:E. rewrite IH. f_equal.
+  rewrite <- (H w b a), E. reflexivity.
+Qed.
+
+Lemma fold_left_inv : forall (X : Type) (I : world -> Prop) (G : world -> X -> world) l,
+  (forall w x, In x l -> I w -> I (G w x)) -> forall w, I w -> I (fold_left G l w).
+Proof.
+  intros X I G l. induction l as [|a l IH]; intros H w Hw; [exact Hw|].
+  cbn [fold_left]. apply IH.
+  - intros w' x Hx. apply H. right. exact Hx.
+  - apply H; [left; reflexivity|exact Hw].
+Qed.
+
+Definition bu_step (bi : id) (node_ir : option id) (w : world) (v : id) : world :=
+  match node_ir with
+  | Some ir => cache_add (set_par (fst (detach w v)) v (Some bi)) ir v
+  | None => set_par (fst (detach w v)) v (Some bi)
+  end.
+
+Definition bu_items (w : world) (bi : id) (items : list id) : list id :=
+  filter (fun v => negb (mem v (kids w bi))) (dedup items).
+
+Lemma blocks_update_fst : forall w bi items,
+  fst (blocks_update w bi items) =
+  fold_left (fun w v => push_kid w bi v) (bu_items w bi items)
+    (fold_left (fun w v => tree_add_ev w bi (off_iv w v)) (bu_items w bi items)
+       (fold_left (bu_step bi (ir_of w bi)) (bu_items w bi items) w)).
+Proof.
+  intros w bi items. unfold blocks_update. fold (bu_items w bi items).
+  match goal with |- context [fold_left ?F (bu_items w bi items) (w, true)] => set (FF := F) end.
+  rewrite <- (fold_pair_fst id bool FF (bu_step bi (ir_of w bi))) with (b := true).
+  - destruct (fold_left FF (bu_items w bi items) (w, true)) as [w1 ok]. reflexivity.
+  - intros w' b x. unfold FF, bu_step. fold (detach w' x).
+    destruct (detach w' x) as [wa oka]. destruct (ir_of w bi); reflexivity.
+Qed.
+
+Lemma bu_step_attr : forall bi o w v n, attr (bu_step bi o w v) n = attr w n.
+Proof. intros. unfold bu_step. destruct o; autorewrite with wf; apply detach_attr. Qed.
+
+Lemma bu_step_sync : forall bi o w v, SyncAll w -> SyncAll (bu_step bi o w v).
+Proof.
+  intros bi o w v H. apply sync_quiet0 with (w := fst (detach w v)).
+  - apply detach_sync. exact H.
+  - intros n. unfold bu_step. destruct o; autorewrite with wf; reflexivity.
+  - intros n. unfold bu_step. destruct o; reflexivity.
+  - intros n. unfold bu_step. destruct o; reflexivity.
+Qed.
+
+Lemma foldB_nodes : forall bi l w,
+  nodes (fold_left (fun w v => tree_add_ev w bi (off_iv w v)) l w) = nodes w.
+Proof. intros bi l. induction l as [|a l IH]; intros w; [reflexivity|]. cbn [fold_left]. rewrite IH. reflexivity. Qed.
+
+Lemma foldB_kids : forall bi l w,
+  kids (fold_left (fun w v => tree_add_ev w bi (off_iv w v)) l w) = kids w.
+Proof. intros bi l. induction l as [|a l IH]; intros w; [reflexivity|]. cbn [fold_left]. rewrite IH. reflexivity. Qed.
+
+Lemma foldB_tree : forall bi l w n,
+  tree (fold_left (fun w v => tree_add_ev w bi (off_iv w v)) l w) n =
+  if n =? bi then fold_left (fun t v => lt_add (off_iv w v) t) l (tree w bi) else tree w n.
+Proof.
+  intros bi l. induction l as [|a l IH]; intros w n.
+  - cbn [fold_left]. destruct (Z.eqb_spec n bi) as [E|E]; [subst n|]; reflexivity.
+  - cbn [fold_left]. rewrite IH. wproj. rewrite upd_same.
+    destruct (Z.eqb_spec n bi) as [E|E]; [reflexivity|]. rewrite upd_other by exact E. reflexivity.
+Qed.
+
+Lemma foldC_nodes : forall bi l w, nodes (fold_left (fun w v => push_kid w bi v) l w) = nodes w.
+Proof. intros bi l. induction l as [|a l IH]; intros w; [reflexivity|]. cbn [fold_left]. rewrite IH. reflexivity. Qed.
+
+Lemma foldC_tree : forall bi l w, tree (fold_left (fun w v => push_kid w bi v) l w) = tree w.
+Proof. intros bi l. induction l as [|a l IH]; intros w; [reflexivity|]. cbn [fold_left]. rewrite IH. reflexivity. Qed.
+
+Lemma foldC_kids : forall bi l w n,
+  kids (fold_left (fun w v => push_kid w bi v) l w) n =
+  if n =? bi then fold_left (fun ks v => push v ks) l (kids w bi) else kids w n.
+Proof.
+  intros bi l. induction l as [|a l IH]; intros w n.
+  - cbn [fold_left]. destruct (Z.eqb_spec n bi) as [E|E]; [subst n|]; reflexivity.
+  - cbn [fold_left]. rewrite IH. wproj. rewrite upd_same.
+    destruct (Z.eqb_spec n bi) as [E|E]; [reflexivity|]. rewrite upd_other by exact E. reflexivity.
+Qed.
+
+Lemma sync_fold_add : forall g l t ks, Sync t (ivs_of g ks) ->
+  Sync (fold_left (fun t v => lt_add (g v) t) l t) (ivs_of g (fold_left (fun ks v => push v ks) l ks)).
+Proof.
+  intros g l. induction l as [|a l IH]; intros t ks H; [exact H|].
+  cbn [fold_left]. apply IH. apply sync_lt_add with (cur := ivs_of g ks); [exact H|].
+  intros j. rewrite !iv_mem_ivs_of. apply hit_push.
+Qed.
+
+Lemma blocks_update_attr : forall w bi items n, attr (fst (blocks_update w bi items)) n = attr w n.
+Proof.
+  intros w bi items n. rewrite blocks_update_fst.
+  rewrite (attr_nodes _ _ n (foldC_nodes bi _ _)), (attr_nodes _ _ n (foldB_nodes bi _ _)).
+  revert n. apply (fold_left_inv id (fun w' => forall n, attr w' n = attr w n)).
+  - intros w' x _ Hw' n. rewrite bu_step_attr. apply Hw'.
+  - reflexivity.
+Qed.
+
+Lemma blocks_update_sync : forall w bi items, kindof w bi = KBI ->
+  SyncAll w -> SyncAll (fst (blocks_update w bi items)).
+Proof.
+  intros w bi items K H. rewrite blocks_update_fst.
+  set (l := bu_items w bi items).
+  set (w1 := fold_left (bu_step bi (ir_of w bi)) l w).
+  assert (S1 : SyncAll w1 /\ forall n, attr w1 n = attr w n).
+  { apply (fold_left_inv id (fun w' => SyncAll w' /\ forall n, attr w' n = attr w n)).
+    - intros w' x _ [Hs Ha]. split; [apply bu_step_sync; exact Hs|].
+      intros n. rewrite bu_step_attr. apply Ha.
+    - split; [exact H|reflexivity]. }
+  destruct S1 as [S1 A1].
+  set (w2 := fold_left (fun w v => tree_add_ev w bi (off_iv w v)) l w1).
+  set (w3 := fold_left (fun w v => push_kid w bi v) l w2).
+  assert (A3 : forall n, attr w3 n = attr w1 n).
+  { intros n. unfold w3, w2.
+    rewrite (attr_nodes _ _ n (foldC_nodes bi _ _)), (attr_nodes _ _ n (foldB_nodes bi _ _)). reflexivity. }
+  assert (K1 : kindof w1 bi = KBI) by (rewrite (attr_kindof _ _ _ (A1 bi)); exact K).
+  assert (T3 : forall n, tree w3 n =
+            if n =? bi then fold_left (fun t v => lt_add (off_iv w1 v) t) l (tree w1 bi) else tree w1 n).
+  { intros n. unfold w3. rewrite foldC_tree. unfold w2. apply foldB_tree. }
+  assert (Q3 : forall n, kids w3 n =
+            if n =? bi then fold_left (fun ks v => push v ks) l (kids w1 bi) else kids w1 n).
+  { intros n. unfold w3. rewrite foldC_kids. unfold w2. rewrite !foldB_kids. reflexivity. }
+  intros n. rewrite T3, cur_ivs_key, Q3.
+  destruct (Z.eqb_spec n bi) as [E|E].
+  - subst n.
+    rewrite ivs_of_ext with (g := off_iv w1).
+    + apply sync_fold_add. specialize (S1 bi). rewrite cur_ivs_key in S1.
+      rewrite ivs_of_ext with (g := off_iv w1) in S1; [exact S1|].
+      intros b _. apply key_of_kind_bi. exact K1.
+    + intros b _. rewrite (key_of_attr w1 w3 bi b (A3 bi) (A3 b)). apply key_of_kind_bi. exact K1.
+  - rewrite ivs_of_ext with (g := key_of w1 n).
+    + rewrite <- cur_ivs_key. apply S1.
+    + intros b _. apply key_of_attr; apply A3.
+Qed.
+
+(* ================================================================== *)
+(** * The combined invariant, set operations *)
+
+Definition Good (w : world) : Prop := SyncAll w /\ NonNeg w.
+
+Definition ret (w : world) (r : res world) : world := match r with Ok w' => w' | Err _ => w end.
+
+Lemma step'_ret : forall w o, step' w o = ret w (step w o).
+Proof. reflexivity. Qed.
+
+Lemma ret_flagged : forall (I : world -> Prop) w r, I w -> I (fst r) -> I (ret w (flagged r)).
+Proof. intros I w [w' ok] Hw Hr. cbn [flagged fst] in *. destruct ok; assumption. Qed.
+
+Lemma fold_ok_fst : forall f l w, fst (fold_ok f l w) = fold_left (fun w v => fst (f w v)) l w.
+Proof.
+  intros f l w. unfold fold_ok. apply fold_pair_fst. intros w' b x. destruct (f w' x); reflexivity.
+Qed.
+
+Lemma fold_ok_inv : forall (I : world -> Prop) f l,
+  (forall w v, In v l -> I w -> I (fst (f w v))) -> forall w, I w -> I (fst (fold_ok f l w)).
+Proof. intros I f l H w Hw. rewrite fold_ok_fst. apply fold_left_inv; assumption. Qed.
+
+Lemma set_discard_good : forall w p c, Good w -> Good (fst (set_discard w p c)).
+Proof.
+  intros w p c [H N]. split; [apply set_discard_sync; exact H|].
+  apply attr_nonneg with (w := w); [intros; apply set_discard_attr|exact N].
+Qed.
+
+Lemma set_add_attr : forall w p c n, attr (fst (set_add w p c)) n = attr w n.
+Proof. intros. unfold set_add. destruct (kindof w p); try apply set_add1_attr. apply blocks_update_attr. Qed.
+
+Lemma set_add_good : forall w p c, Good w -> Good (fst (set_add w p c)).
+Proof.
+  intros w p c [H N]. split.
+  - unfold set_add. destruct (kindof w p) eqn:K; try (apply set_add1_sync; exact H).
+    apply blocks_update_sync; assumption.
+  - apply attr_nonneg with (w := w); [intros; apply set_add_attr|exact N].
+Qed.
+
+Lemma blocks_update_good : forall w bi items, kindof w bi = KBI -> Good w -> Good (fst (blocks_update w bi items)).
+Proof.
+  intros w bi items K [H N]. split; [apply blocks_update_sync; assumption|].
+  apply attr_nonneg with (w := w); [intros; apply blocks_update_attr|exact N].
+Qed.
+
+Lemma do_set_good : forall w p fk m args, Good w -> Good (ret w (do_set w p fk m args)).
+Proof.
+  intros w p fk m args G. unfold do_set. cbv zeta.
+  generalize (match args with a :: _ => a | [] => [] end). intros arg1.
+  destruct m.
+  - destruct arg1 as [|c [|c' r]]; try exact G. apply ret_flagged; [exact G|apply set_add_good; exact G].
+  - destruct arg1 as [|c [|c' r]]; try exact G. apply ret_flagged; [exact G|apply set_discard_good; exact G].
+  - destruct arg1 as [|c [|c' r]]; try exact G. destruct (mem c (field w p fk)); [|exact G].
+    apply ret_flagged; [exact G|apply set_discard_good; exact G].
+  - destruct (field w p fk) as [|x xs] eqn:F; [exact G|]. rewrite <- F.
+    destruct arg1 as [|c [|c' r]]; try exact G. destruct (mem c (field w p fk)); [|exact G].
+    apply ret_flagged; [exact G|apply set_discard_good; exact G].
+  - apply ret_flagged; [exact G|]. apply fold_ok_inv; [|exact G]. intros; apply set_discard_good; assumption.
+  - destruct (kindof w p) eqn:K;
+    try (apply ret_flagged; [exact G|]; apply fold_ok_inv; [|exact G]; intros; apply set_add_good; assumption).
+    apply ret_flagged; [exact G|]. apply blocks_update_good; assumption.
+  - apply ret_flagged; [exact G|]. apply fold_ok_inv; [|exact G]. intros; apply set_add_good; assumption.
+  - apply ret_flagged; [exact G|]. apply fold_ok_inv; [|exact G]. intros; apply set_discard_good; assumption.
+  - apply ret_flagged; [exact G|]. apply fold_ok_inv; [|exact G]. intros; apply set_discard_good; assumption.
+  - apply ret_flagged; [exact G|]. apply fold_ok_inv; [|exact G]. intros w' v _ G'.
+    destruct (mem v (field w' p fk)); [apply set_discard_good|apply set_add_good]; exact G'.
+Qed.
